@@ -314,13 +314,13 @@ where
                 let f = &f;
                 std::thread::Builder::new()
                     .stack_size(256 << 20)
-                    .spawn_scoped(s, move || f(i))
+                    .spawn_scoped(s, move || catch(|| f(i)))
                     .expect("spawn")
             })
             .collect();
         handles
             .into_iter()
-            .map(|h| h.join().map_err(|_| "worker panicked".to_string()))
+            .map(|h| h.join().map_err(|_| "worker panicked".to_string()).and_then(|r| r))
             .collect()
     });
     for r in results {
